@@ -27,7 +27,7 @@ CFG = {
     "stages": ["go:gen", "go:impl", "lean:judge"],
     "theorems": [T + n for n in [
         "C15_symm_all", "C15_symm", "C15_greedy_iff_perfect", "C15_model_eq_spec", "C15_false_of_spec",
-        "C15_perturb", "C15_perturb_members", "C15_perturb_ring", "C15_perturb_points",
+        "C15_perturb", "C15_perturb_members", "C15_perturb_ring", "C15_perturb_points", "C15_perturb_polygon", "C15_perturb_collection",
         "C15_false_cases", "C15_false_type", "C15_false_count", "C15_false_vertex_count", "C15_false_no_partner",
         "C15_false_displaced_vertex", "C15_false_reversed", "C15_false_displaced_ring_vertex",
         "C15_false_displaced_member", "C15_ring_index_eq_rotation",
